@@ -262,6 +262,12 @@ func checkScanner(in string, ref refResult, frag []int, eofWith bool, reuse *she
 			continue // long padded inputs: the first tokens and the last ones (around the boundary)
 		}
 		sc = shell.NewScanner(mk())
+		if reuse != nil && j%3 == 2 {
+			// the same programme on a scanner that is reused through Reset
+			// (it has scanned other input before)
+			reuse.Reset(mk())
+			sc = reuse
+		}
 		ok := true
 		for t := 0; t < j; t++ {
 			ok = sc.Next()
@@ -297,6 +303,10 @@ func checkScanner(in string, ref refResult, frag []int, eofWith bool, reuse *she
 	}
 	// Reset and reuse: the same scanner must behave as a fresh one
 	if reuse != nil {
+		reuse.Reset(mk())
+		if rest, err := io.ReadAll(reuse.Rest()); err != nil || string(rest) != in {
+			return fmt.Sprintf("%s: Rest() right after Reset on a reused scanner = %q (err %v), want the whole input", desc, rest, err)
+		}
 		reuse.Reset(mk())
 		var got []string
 		for reuse.Next() {
